@@ -358,3 +358,111 @@ func ruleRD2() Rule {
 			}
 		}}
 }
+
+// SP5: unquoted $* is not joined.
+func ruleSP5() Rule {
+	return Rule{ID: "SP5", Kind: "must", Floor: 1,
+		Doc: "in the look-up of the parameter `*`, the string joined by the first character of IFS is built only for the quoted (or operator) form: the call of ifs() in that clause is preceded by a test of the quote flag that leaves the clause with one value per positional parameter. Joining first and splitting afterwards loses the boundaries between the parameters whenever the separator is not an IFS character any more - with a null IFS the parameters a and b become the field ab",
+		Run: func(c *Ctx, rr *core.RuleResult) {
+			ep := c.mustFn(rr, "interp.(*ExecEnv).expandParam")
+			ifsFn := c.mustFn(rr, "interp.(*ExecEnv).ifs")
+			if ep == nil || ifsFn == nil {
+				return
+			}
+			n := 0
+			for _, f := range c.region(ep) {
+				info := f.Info()
+				// the quote flag: a local bound to `mode&Quote != 0`, or a bool parameter handed that value
+				isQuoteTest := func(e ast.Expr) bool {
+					found := false
+					ast.Inspect(e, func(x ast.Node) bool {
+						switch y := x.(type) {
+						case *ast.Ident:
+							if y.Name == "Quote" {
+								if _, isConst := info.Uses[y].(*types.Const); isConst {
+									found = true
+								}
+							}
+							if v, isVar := info.Uses[y].(*types.Var); isVar && v.Type().String() == "bool" {
+								if d := localDef(f, info, v); d != nil {
+									ast.Inspect(d, func(z ast.Node) bool {
+										if id, isID := z.(*ast.Ident); isID && id.Name == "Quote" {
+											found = true
+										}
+										return true
+									})
+								}
+								if isParamOf(f, v) && (v.Name() == "quote" || v.Name() == "quoted") {
+									found = true
+								}
+							}
+						}
+						return true
+					})
+					return found
+				}
+				for _, sw := range switches(c.P, f) {
+					cl := sw.clauseFor0("*")
+					if cl == nil || len(cl.strs) != 1 {
+						continue
+					}
+					var call *ast.CallExpr
+					for _, st := range cl.cc.Body {
+						ast.Inspect(st, func(x ast.Node) bool {
+							if cx, ok := x.(*ast.CallExpr); ok && call == nil {
+								if fo := core.StaticCallee(info, cx); fo != nil && c.P.FuncOf(fo) == ifsFn {
+									call = cx
+								}
+							}
+							return call == nil
+						})
+					}
+					if call == nil {
+						continue
+					}
+					n++
+					key := fmt.Sprintf("%s|$* joined only when quoted #%d", f.Name, n)
+					ok := false
+					for p := c.P.Parent(call); p != nil && !ok; p = c.P.Parent(p) {
+						var list []ast.Stmt
+						switch b := p.(type) {
+						case *ast.BlockStmt:
+							list = b.List
+						case *ast.CaseClause:
+							list = b.Body
+						}
+						for _, st := range list {
+							if st.Pos() >= call.Pos() {
+								break
+							}
+							ifs, isIf := st.(*ast.IfStmt)
+							if !isIf || !isQuoteTest(ifs.Cond) || len(ifs.Body.List) == 0 {
+								continue
+							}
+							switch ifs.Body.List[len(ifs.Body.List)-1].(type) {
+							case *ast.BranchStmt, *ast.ReturnStmt:
+								ok = true
+							}
+						}
+						if p == ast.Node(cl.cc) {
+							break
+						}
+					}
+					// or the join itself stands under a positive test of the flag
+					for _, gd := range guardsOf(c.P, call, cl.cc) {
+						if isQuoteTest(gd.cond) {
+							ok = true
+						}
+					}
+					if ok {
+						rr.OK(f, key, call.Pos(), "quoted-only", "outside double-quotes the clause yields one value per positional parameter")
+					} else {
+						rr.Bad(f, key, call.Pos(), "`$*` is joined by the separator whether or not it is quoted: unquoted, the parameters are glued together wherever the separator is not split off again (IFS='': a and b become ab)")
+					}
+				}
+			}
+			if n == 0 {
+				rr.Unk(ep, ep.Name+"|$* joined only when quoted", ep.Pos(), "no clause for `*` that calls ifs() found")
+			}
+		}}
+}
